@@ -77,7 +77,7 @@ package bufiox
 //@ ghost $lastchunk []byte
 //@ ghost $prevchunk []byte
 
-//@ pred wrGrew(wr, n) = wr.$wlen == old(wr.$wlen) + n && wr.$nchunks == old(wr.$nchunks) + 1 && len(wr.$lastchunk) == n && same(wr.$prevchunk, old(wr.$lastchunk))
+//@ pred wrGrew(wr, n) = 0 <= old(wr.$wlen) && wr.$wlen <= 0x800000000000 && wr.$wlen == old(wr.$wlen) + n && wr.$nchunks == old(wr.$nchunks) + 1 && len(wr.$lastchunk) == n && same(wr.$prevchunk, old(wr.$lastchunk))
 //@ pred wrSame(wr) = wr.$wlen == old(wr.$wlen) && wr.$nchunks == old(wr.$nchunks) && same(wr.$lastchunk, old(wr.$lastchunk)) && same(wr.$prevchunk, old(wr.$prevchunk))
 
 //@ iface Writer.Malloc
